@@ -22,7 +22,7 @@
     such a path unless one of its names contains `~` or `$` (C05, idempotence).
   * This file follows the tree with the five repairs 0b4a978 (is_dir/is_file), 07b9520 (remove),
     fb609ee (remove_all), 65f3327 (mkdir_m), 1506af7 (readlink_abs), c6af400 (mkdir_p), fcf2bdc (all_*),
-    82971d7 + 25a8372 (copy).
+    82971d7 + 84ccdca (copy).
   * io errors are mapped by `ioErr`; C02 compares success with failure only.
   * NOT MODELLED (return `.err .other`): `entry`, `entries`, the open-handle operations
     (`hWrite … hDrop`: a `File` is kernel state the tree does not have), `follow = true` for
@@ -593,8 +593,10 @@ def copyStep (env : Env) (srcRoot dstRoot : FsPath) (copyInto : Bool) (dirMode f
           let pe ← liftO (entryFrom env t (renderP sd))
           SM.pure pe.mode
       let _ ← mkdirM env (renderP dd) pm
-    -- `if dst_path != src.path() { fs::copy(src.path(), &dst_path)?; }` (fix 25a8372)
-    if dstPath ≠ src.path then sysM (copyFile · src.path dstPath)
+    -- `if !same { fs::copy(src.path(), &dst_path)?; }` where `same` compares `st_dev`/`st_ino` of the two
+    -- `fs::metadata` (fix 84ccdca): a file that lands on itself (also through links) is left alone
+    let t' ← getT
+    if !(sameFile t' src.path dstPath) then sysM (copyFile · src.path dstPath)
     match fileMode with
     | some m => sysM (Posix.chmod · dstPath m)
     | none => SM.pure ()
